@@ -30,12 +30,12 @@ import (
 // every k; a fresh process reads everything back through the real code.
 
 func init() {
-	register(&Family{Name: "c14", Gen: genC14, Run: runC14})
-	register(&Family{Name: "c14crash", Gen: genC14, Run: runC14Crash})
+	register(&Family{Name: "c14", Gen: func(seed uint64, tier string) *world.Scenario { return genC14("c14", seed) }, Run: runC14})
+	register(&Family{Name: "c14crash", Gen: func(seed uint64, tier string) *world.Scenario { return genC14("c14crash", seed) }, Run: runC14Crash})
 }
 
-func genC14(seed uint64, tier string) *world.Scenario {
-	sc := &world.Scenario{Family: "c14", Seed: seed, Params: map[string]float64{}}
+func genC14(fam string, seed uint64) *world.Scenario {
+	sc := &world.Scenario{Family: fam, Seed: seed, Params: map[string]float64{}}
 	r := kernel.NewRand(seed, "c14")
 	sc.Params["ops"] = float64(r.Range(5, 60))
 	return sc
